@@ -125,6 +125,7 @@ qb_log_dcs_get(int32_t * newly_created,
 		priority == csl_head->cs->priority &&
 		(message_id ? (strcmp(message_id, csl_head->cs->message_id) == 0) : 1) &&
 		strcmp(safe_filename, csl_head->cs->filename) == 0 &&
+		strcmp(safe_function, csl_head->cs->function) == 0 &&
 		strcmp(safe_format, csl_head->cs->format) == 0) {
 		(void)qb_thread_unlock(arr_next_lock);
 		return csl_head->cs;
@@ -145,6 +146,7 @@ qb_log_dcs_get(int32_t * newly_created,
 			assert(csl->cs->lineno == lineno);
 			if (priority == csl->cs->priority &&
 			    strcmp(safe_format, csl->cs->format) == 0 &&
+			    strcmp(safe_function, csl->cs->function) == 0 &&
 			    strcmp(safe_filename, csl->cs->filename) == 0) {
 				cs = csl->cs;
 				break;
